@@ -30,7 +30,12 @@ def gen_spec(seed: int, idx: int, tier: str):
     if idx % 4 == 3:
         return gen_sweep_spec(seed, idx // 4, idx)
     rng = rng_for(PROP, seed, idx)
-    inp = cliworld.make_input(rng, "p0", p_bad=0.3)
+    dst = rng.random() < 0.08
+    if dst:
+        inp = gen.gen_dst_project(rng)
+        inp.update(name="p0")
+    else:
+        inp = cliworld.make_input(rng, "p0", p_bad=0.3)
     if inp.get("text") and rng.random() < 0.06:
         inp["text"] = inp["text"].replace("\n", "\r\n")
         inp["tags"] = list(inp.get("tags", [])) + ["crlf"]
@@ -56,7 +61,7 @@ def gen_spec(seed: int, idx: int, tier: str):
     if spec["missing_tmp"]:
         spec["decoys"] = {k: v for k, v in spec["decoys"].items() if not k.startswith(("tmp/", "alt-tmp/"))}
     spec["t0"] = procworld.T0 + rng.choice([0, 0, 86400 * 200, -86400 * 3000, 86400 * 9000, 86400 * 0.9])
-    spec["tz"] = rng.choice(TZ_KNOB)
+    spec["tz"] = inp["tz"] if dst else rng.choice(TZ_KNOB)
     if mode == "channels" or rng.random() < 0.3:
         kinds = []
     else:
